@@ -377,6 +377,15 @@ class Connection(object):
         cont = (not buf_empty or not up_empty)
         return cont
 
+    def send_pending(self):
+        ''' Get the number of octets which were obtained from
+        :py:meth:`send_raw` but are not yet written to the socket.
+
+        :return: The pending size (octets).
+        :rtype: int
+        '''
+        return len(self.__tx_buf)
+
     def send_ready(self):
         ''' Called to indicate that :py:meth:`send_raw` will return non-empty.
         This will attempt immediate transmit of chunks if available, and
@@ -530,7 +539,11 @@ class Messenger(Connection):
 
         :return: True if there are no data being processed RX or TX side.
         '''
-        return len(self.__rx_buf) == 0 and len(self.__tx_buf) == 0
+        return (
+            len(self.__rx_buf) == 0
+            and len(self.__tx_buf) == 0
+            and self.send_pending() == 0
+        )
 
     def set_on_session_start(self, func):
         ''' Set a callback to be run when this session is started.
